@@ -122,6 +122,11 @@ func Choice(tag string, n int) int {
 // equal to each option so the result is concrete on those paths.
 func OneOf(s string, options ...string) string { return s }
 
+// And / Or are && and || that the symbolic executor evaluates WITHOUT forking the
+// path (both operands are always evaluated): for order-free "exists" oracles.
+func And(a, b bool) bool { return a && b }
+func Or(a, b bool) bool  { return a || b }
+
 func Assume(c bool) {
 	if !c {
 		panic(assumeFailed{})
